@@ -862,6 +862,24 @@ fn c03_jobs(r: &mut Rng, w: &World, thorough: bool) -> Vec<VJob> {
 fn c05_jobs(r: &mut Rng, w: &World, thorough: bool) -> Vec<VJob> {
     let mut jobs = common_families(r, w, thorough);
     jobs.extend(crafted_c05(w));
+    // a presentation without any credential (self-attested values only) is still bound to the request's nonce and to its
+    // aggregated proof
+    {
+        let spec = ReqSpec::new(NONCE).attr("sa", "phone").attr("sb", "email");
+        let mut honest = job("no-credentials:honest", Fmt::Legacy, &spec, &spec, vec![], w);
+        honest.self_att = vec![("sa".into(), "555".into()), ("sb".into(), "x@y".into())];
+        jobs.push(honest.clone());
+        for other in ["999", "123432421213", "1"] {
+            let mut j = honest.clone();
+            j.class = "no-credentials:other-nonce".into();
+            j.verify = ReqSpec::new(other).attr("sa", "phone").attr("sb", "email");
+            jobs.push(j);
+        }
+        let mut j = honest.clone();
+        j.class = "no-credentials:aggregated-proof-altered".into();
+        j.muts = vec![Mut::AlterAgg];
+        jobs.push(j);
+    }
     for fmt in [Fmt::Legacy, Fmt::W3C] {
         for sname in ["two-creds-same-creddef", "two-creddefs-same-schema"] {
             let s = shapes().into_iter().find(|s| s.0 == sname).unwrap();
@@ -953,6 +971,34 @@ fn crafted_c05(w: &World) -> Vec<VJob> {
 
 fn c02_jobs(r: &mut Rng, w: &World, thorough: bool) -> Vec<VJob> {
     let mut jobs = common_families(r, w, thorough);
+    // two credentials of ONE revocable definition and registry in one presentation (equal identifiers when both are shown
+    // without, or with the same, timestamp): the interval of each is decided by the referents IT serves
+    for fmt in [Fmt::Legacy, Fmt::W3C] {
+        for (l1, l8) in [(None, None), (Some(0usize), None), (None, Some(0usize)), (Some(0), Some(0)), (Some(1), Some(1)), (Some(2), Some(2)), (Some(0), Some(2))] {
+            for (iv_on, iv) in [("second", (Some(50u64), Some(350u64))), ("first", (Some(50), Some(350))), ("second", (Some(150), None)), ("none", (None, None))] {
+                let build = ReqSpec::new(NONCE).attr("a_name", "name").attr("a_sex", "sex").pred("p_age", "age", ">=", 18);
+                let mut verify = build.clone();
+                match iv_on { "second" => verify = verify.local("a_sex", iv), "first" => verify = verify.local("a_name", iv), _ => {} }
+                let mut j = job("two-credentials-one-registry", fmt, &build, &verify, vec![pick(1, &[("a_name", true)], &["p_age"], l1), pick(8, &[("a_sex", true)], &[], l8)], w);
+                j.base = Base::StripIntervals;
+                jobs.push(j);
+            }
+        }
+    }
+    // intervals whose bounds coincide
+    for fmt in [Fmt::Legacy, Fmt::W3C] {
+        for list in [Some(0usize), Some(1), Some(2)] {
+            for t in [100u64, 200, 300, 150] {
+                for place in ["global", "local"] {
+                    let build = ReqSpec::new(NONCE).attr("a_name", "name");
+                    let verify = if place == "global" { build.clone().global((Some(t), Some(t))) } else { build.clone().local("a_name", (Some(t), Some(t))) };
+                    let mut j = job("interval:from-equals-to", fmt, &build, &verify, vec![pick(1, &[("a_name", true)], &[], list)], w);
+                    j.base = Base::StripIntervals;
+                    jobs.push(j);
+                }
+            }
+        }
+    }
     jobs.extend(two_locals_jobs(w));
     // credential 1 (index 1 of the registry) is valid in lists 0,1 and revoked in list 2;
     // credential 4 (index 2, holder 1) is valid in list 0 only
@@ -1217,6 +1263,36 @@ fn c06_jobs(r: &mut Rng, w: &World, thorough: bool) -> Vec<VJob> {
                 jobs.push(j.clone());
                 j.muts = if fmt == Fmt::Legacy { vec![Mut::IdentSet(0, "cred_def_id", json!(vw::CD_IDS[3]))] } else { vec![Mut::WIdent(0, "cred_def_id", json!(vw::CD_IDS[3]))] };
                 jobs.push(j);
+            }
+        }
+        // two credentials from different issuers prove the SAME predicate (and reveal the same attribute); a restriction or
+        // interval on one referent is met by the later credential only: the search must move on to it
+        {
+            let spec = ReqSpec::new(NONCE).pred("p1", "age", ">=", 18).pred("p2", "age", ">=", 18).attr("a1", "name").attr("a2", "name");
+            let picks = vec![pick(0, &[("a1", true)], &["p1"], None), pick(5, &[("a2", true)], &["p2"], None)];
+            for q in [json!({"cred_def_id": vw::CD_IDS[3]}), json!({"issuer_id": "did:web:issuer2.example"}), json!({"schema_name": "gvt2"}), json!({"cred_def_id": vw::CD_IDS[0]}), json!({"schema_name": "nope"})] {
+                for rf in ["p2", "a2", "p1"] {
+                    let verify = spec.clone().restr(rf, q.clone());
+                    let mut j = job("restriction:same-predicate-from-two-issuers", fmt, &spec, &verify, picks.clone(), w);
+                    j.base = Base::StripRestrictions;
+                    jobs.push(j);
+                }
+            }
+        }
+        // two credentials of ONE credential definition (equal identifiers): a value restriction on a referent is about the
+        // credential serving THAT referent; the other credential reveals a different value for the same attribute
+        {
+            let spec = ReqSpec::new(NONCE).attr("a_name", "name").pred("p_age", "age", ">=", 18).attr("a_h", "height");
+            // credential 6 ("Alexa") reveals the name; credential 0 ("Alex") proves the predicate and reveals the height
+            let picks = vec![pick(6, &[("a_name", true)], &[], None), pick(0, &[("a_h", true)], &["p_age"], None)];
+            for q in [json!({"attr::name::value": "Alexa"}), json!({"attr::name::value": "Alex"}), json!({"attr::height::value": "175"}), json!({"attr::height::value": "168"}),
+                      json!({"attr::name::marker": "1"}), json!({"$not": {"attr::name::value": "Alexa"}})] {
+                for rf in ["p_age", "a_name", "a_h"] {
+                    let verify = spec.clone().restr(rf, q.clone());
+                    let mut j = job("restriction:two-credentials-one-creddef", fmt, &spec, &verify, picks.clone(), w);
+                    j.base = Base::StripRestrictions;
+                    jobs.push(j);
+                }
             }
         }
         // legacy: a referent listed twice - revealed from one credential AND unrevealed under another; the restriction
